@@ -10,6 +10,7 @@ import (
 	"os/exec"
 	"path/filepath"
 	"runtime"
+	"runtime/pprof"
 	"strconv"
 	"strings"
 	"sync"
@@ -94,6 +95,12 @@ func workerMain(env Env, args []string) int {
 	} else {
 		for i := *from; i < *to; i += *stride {
 			idx = append(idx, i)
+		}
+	}
+	if pf := os.Getenv("DST_CPUPROFILE"); pf != "" {
+		if f, err := os.Create(pf); err == nil {
+			_ = pprof.StartCPUProfile(f)
+			defer pprof.StopCPUProfile()
 		}
 	}
 	w := setupWorld(env)
